@@ -37,6 +37,8 @@ func main() {
 		err = cmdLimits(os.Args[2:])
 	case "fidelity":
 		err = cmdFidelity(os.Args[2:])
+	case "cfgfmt":
+		err = cmdCfgFmt(os.Args[2:])
 	case "publish":
 		err = cmdPublish(os.Args[2:])
 	case "reload":
